@@ -441,6 +441,11 @@ type tpG struct {
 	r     *h.Rand
 	kinds []byte
 	b     bytes.Buffer
+	// history programs (genTParmHistories): plain = only %d / %s outputs (every run is inside the domain the reference
+	// specifies, so the judge follows the whole line); noStore = no %P token; lets = the variable letters to draw from
+	plain   bool
+	noStore bool
+	lets    []byte
 }
 
 func (q *tpG) w(s string) { q.b.WriteString(s) }
@@ -462,7 +467,12 @@ func (q *tpG) pk(want byte) int {
 	return q.r.Range(1, 9)
 }
 
-func (q *tpG) letter() string { return string(rune(h.Pick(q.r, tpLetters))) }
+func (q *tpG) letter() string {
+	if len(q.lets) > 0 {
+		return string(rune(h.Pick(q.r, q.lets)))
+	}
+	return string(rune(h.Pick(q.r, tpLetters)))
+}
 
 func (q *tpG) strExpr() {
 	has := bytes.IndexByte(q.kinds, 's') >= 0
@@ -568,6 +578,16 @@ func (q *tpG) fmtSpec(conv byte) {
 }
 
 func (q *tpG) out() {
+	if q.plain {
+		if q.r.Chance(70) {
+			q.intExpr(3)
+			q.w("%d")
+		} else {
+			q.strExpr()
+			q.w("%s")
+		}
+		return
+	}
 	switch k := q.r.Intn(100); {
 	case k < 30:
 		q.intExpr(3)
@@ -645,6 +665,10 @@ func (q *tpG) item(d int) {
 	case k < 72:
 		q.w("%i")
 	case k < 84:
+		if q.noStore {
+			q.out()
+			break
+		}
 		if r.Chance(70) {
 			q.intExpr(3)
 		} else {
@@ -695,6 +719,131 @@ func tpRandomCall(r *h.Rand) string {
 	return tpCall(string(b), shown...)
 }
 
+// ---- call histories on one Terminfo value (C07: "per-call dynamic and cross-call static variables")
+//
+// A TParm result is a function of (string, parameters, static variables at the time of the call) and of nothing else:
+// not of which strings were expanded before, not of whether the same call was made earlier.  A history draws its
+// calls from a small set of call templates (program + parameters), so identical calls recur with other calls between
+// them: readers (%g<static>, no %P), writers (%P<static>), read-modify-write programs, all over the same two static
+// letters.  The reference threads the static variables along the line.
+
+type tpTemplate struct {
+	call   string
+	reader bool
+	writer bool
+}
+
+func tpHistoryTemplate(r *h.Rand, lets []byte, kind int) tpTemplate {
+	statics := lets[:2]
+	n := r.Range(0, 2)
+	if kind == 1 && n == 0 {
+		n = 1
+	}
+	shown, kinds := tpParams(r, n, r.Chance(30))
+	q := &tpG{r: r, kinds: kinds, plain: true, lets: lets, noStore: kind == 0}
+	var prog string
+	L := string(rune(h.Pick(r, statics)))
+	switch {
+	case r.Chance(35): // the canonical shapes
+		switch kind {
+		case 0:
+			prog = h.Pick(r, []string{"%g" + L + "%d", "<%g" + L + "%s>", "%?%g" + L + "%tY%eN%;", "%g" + L + "%{1}%+%d", "%p1%d:%g" + L + "%d"})
+		case 1:
+			prog = h.Pick(r, []string{"%p1%P" + L, "%p1%P" + L + "ok", "%p1%{1}%+%P" + L, "%p1%p2%+%P" + L + "%p1%d"})
+		default:
+			prog = h.Pick(r, []string{"%g" + L + "%{1}%+%P" + L + "%g" + L + "%d", "%g" + L + "%d%p1%P" + L, "%g" + L + "%Pa%p1%P" + L + "%ga%d"})
+		}
+	default:
+		d := r.Range(0, 2)
+		q.prog(d)
+		prog = q.b.String()
+		hasG, hasP := false, false
+		for _, c := range statics {
+			hasG = hasG || strings.Contains(prog, "%g"+string(rune(c)))
+			hasP = hasP || strings.Contains(prog, "%P"+string(rune(c)))
+		}
+		if kind != 1 && !hasG {
+			prog += "%g" + L + h.Pick(r, []string{"%d", "%s"})
+		}
+		if kind != 0 && !hasP {
+			if r.Bool() {
+				prog += "%p1%P" + L
+			} else {
+				prog = "%p1%P" + L + prog
+			}
+		}
+	}
+	return tpTemplate{call: tpCall(prog, shown...), reader: kind != 1, writer: kind != 0}
+}
+
+func genTParmHistories(g *h.Gen) {
+	r := g.R
+	// (1) store in one string, read in another, for every static letter, with the reader repeated
+	for c := byte('A'); c <= 'Z'; c++ {
+		L := string(rune(c))
+		rd, rd2 := tpCall("%g"+L+"%d"), tpCall("[%g"+L+"%s]")
+		v1, v2 := r.Range(1, 999), r.Range(1000, 1999)
+		tpEmit(g, "history", rd, tpCall("%p1%P"+L, tpI(v1)), rd, rd, tpCall("%p1%P"+L, tpI(v2)), rd, rd2, tpCall("%p1%P"+L, tpS("s"+L)), rd2, rd)
+	}
+	// (2) random histories over call templates
+	for i, n := 0, g.N(1500, 40000); i < n; i++ {
+		up := []byte("ABCDEFGHIJKLMNOPQRSTUVWXYZ")
+		a := r.Intn(26)
+		b := (a + 1 + r.Intn(25)) % 26
+		lets := []byte{up[a], up[b], byte('a' + r.Intn(26))}
+		ts := []tpTemplate{tpHistoryTemplate(r, lets, 0), tpHistoryTemplate(r, lets, 1)}
+		for k := r.Range(1, 3); k > 0; k-- {
+			ts = append(ts, tpHistoryTemplate(r, lets, r.Intn(3)))
+		}
+		var calls []string
+		if r.Chance(50) { // read, store, read again (the same call)
+			calls = append(calls, ts[0].call, ts[1].call, ts[0].call)
+		}
+		for k := r.Range(3, 7); k > 0; k-- {
+			if len(calls) > 0 && r.Chance(20) {
+				calls = append(calls, calls[len(calls)-1]) // the identical call twice in a row
+			} else {
+				calls = append(calls, h.Pick(r, ts).call)
+			}
+		}
+		tpEmit(g, "history", calls...)
+	}
+	// (3) database strings: identical calls repeated and interleaved with calls of other entries' strings
+	db := tpDBStrings()
+	dbCall := func(d tpDBStr) string {
+		ps := make([]string, d.arity)
+		for j := range ps {
+			if d.str {
+				ps[j] = tpS(h.Pick(r, []string{"", "abc", "https://example.com/a?b=c", "a%b"}))
+			} else if r.Bool() {
+				ps[j] = tpI(h.Pick(r, tpB))
+			} else {
+				ps[j] = tpI(r.Intn(256))
+			}
+		}
+		return tpCall(d.s, ps...)
+	}
+	for i, n := 0, g.N(400, 10000); i < n; i++ {
+		var ts []string
+		for k := r.Range(2, 4); k > 0; k-- {
+			d := h.Pick(r, db)
+			ts = append(ts, dbCall(d))
+			if r.Chance(50) {
+				ts = append(ts, dbCall(d)) // same string, other parameters
+			}
+		}
+		var calls []string
+		for k := r.Range(4, 8); k > 0; k-- {
+			if len(calls) > 0 && r.Chance(25) {
+				calls = append(calls, calls[len(calls)-1])
+			} else {
+				calls = append(calls, h.Pick(r, ts))
+			}
+		}
+		tpEmit(g, "dbhistory", calls...)
+	}
+}
+
 func genTParm(g *h.Gen) {
 	r := g.R
 	// (w) fixed witnesses
@@ -716,6 +865,8 @@ func genTParm(g *h.Gen) {
 	tpEmit(g, "witness", tpCall("%p1%PA", tpI(5)), tpCall("%gA%d"))
 	// (a) the database and the hard-coded strings over their parameter domains
 	genTParmDB(g)
+	// (h) call histories: static variables across calls, identical calls repeated
+	genTParmHistories(g)
 	// (b) grammar-directed well-formed programs; (c) random / malformed byte strings
 	n := g.N(6000, 300000)
 	for i := 0; i < n; i++ {
@@ -940,7 +1091,7 @@ func genTColor(g *h.Gen) {
 
 func init() {
 	h.Register(&h.Engine{Name: "tparm",
-		Rule: "TParm call sequences (1-4 calls per line, static variables reset first): fixed witnesses, every parameterised string of every database entry and of tscreen.go over a stratified parameter domain, grammar-directed well-formed programs (depth<=4), random/malformed byte strings; distinct = distinct line; non-trivial = some program contains '%'",
+		Rule: "TParm call sequences (1-10 calls per line on one Terminfo value, static variables reset first): fixed witnesses, call histories over a few call templates sharing two static variables (readers, writers, read-modify-write; identical calls recur) and over database strings, every parameterised string of every database entry and of tscreen.go over a stratified parameter domain, grammar-directed well-formed programs (depth<=4), random/malformed byte strings; distinct = distinct line; non-trivial = some program contains '%'",
 		Gen:  genTParm, Exec: execTParm})
 	h.Register(&h.Engine{Name: "tputs",
 		Rule: "TPuts on strings over a padding-marker alphabet, structured marker pieces and every database string with a marker; distinct = distinct line; non-trivial = the string contains \"$<\"",
